@@ -397,6 +397,8 @@ def h_option_flatten(pattern, deep):
 
 
 def jobs_for(prop, tier):
+    if prop == 'C01':
+        return jobs_c01(tier) + jobs_carry(tier)
     if prop == 'C05':
         return jobs_c05(tier) + [j for j in jobs_option_below(tier) if j[1][3] in ('num', 'localindex')]
     if prop == 'C09':
@@ -1609,4 +1611,92 @@ def jobs_c10(tier):
                     js.append((h_record, (nf, length, 'range', (a, b)), 600))
         for k in range(-1, nf + 1):
             js.append((h_record, (nf, 2, 'field', k), 600))
+    return js
+
+
+# ------------------------------------------------------------------------------------------------ C01 / C02: carry and ranges on every node class
+def generic_node(nc, cls, dims, variant=None):
+    """-> (this, nested value, short mangled class name, replay head builder)"""
+    if cls in ('ListOffsetArray64', 'ListArray64', 'RegularArray', 'UnmaskedArray', 'IndexedOptionArray64'):
+        return any_node(nc, cls, dims)
+    pat = tuple(map(bool, dims))
+    if cls == 'ByteMaskedArray':
+        this, mk = build_bytemasked(nc, pat, variant)
+        return (this, [NONE if p else Elem(BV(i)) for i, p in enumerate(pat)], '15ByteMaskedArray',
+                lambda model, lc: ('i64 %s bytemask %s %d ' % (fullnative.ints(range(max(lc, len(pat)))), fullnative.ints([model.eval(x, model_completion=True).as_signed_long() for x in mk]), 1 if variant else 0),
+                                   [None if p else i for i, p in enumerate(pat)]))
+    if cls == 'IndexedArray64':
+        this, idx = build_indexed(nc, 'IndexedArray64', pat, nc.content0, nc.lencontent, 'node')
+
+        def rp(model, lc):
+            iv = [model.eval(x, model_completion=True).as_signed_long() for x in idx]
+            return 'i64 %s indexed64 %s ' % (fullnative.ints(range(max([lc] + [v + 1 for v in iv]))), fullnative.ints(iv)), iv
+        return this, [Elem(x) for x in idx], '14IndexedArrayOfIlLb0EE', rp
+    raise Unsupported(cls)
+
+
+@guard
+def h_carry(cls, dims, variant, n):
+    """carry(index) (integer-array selection of the node's own entries, the primitive under every advanced slice): entry i of the result is
+    entry index[i] of the receiver, unchanged; indexes are in range (the callers check) """
+    nc = NodeCtx(['LOA', 'LA', 'RA', 'IA', 'BMA', 'UMA', 'IDX', 'CNT', 'UTL', 'KD', 'IDS'], [], unwind=max(12, 2 * n + sum(dims) + len(dims) + 8))
+    this, vals, short, rp = generic_node(nc, cls, dims, variant)
+    length = len(vals)
+    data = nc.m.array('carrydata', ('i', 64), max(1, n), const=True)
+    a0 = z3.Array('carrydata', z3.BitVecSort(64), z3.BitVecSort(64))
+    iv = [z3.Select(a0, BV(i)) for i in range(n)]
+    for v in iv:
+        nc.m.assume(v >= 0, v < length)
+    cells = {}
+    nc.index_cells(cells, 0, data, BV(0), BV(n))
+    idx = nc.m.record('carryindex', cells, const=True)
+    nc.m.record('ret', {})
+    out = nc.m.call('_ZNK7awkward%s5carryERKNS_7IndexOfIlEEb' % short, [Ptr('ret', 0), this, idx, z3.BitVecVal(0, 1)])
+    obls = [('carry with in-range indexes does not raise', out.raised)]
+    want = []
+    for i in range(n):
+        # index values are symbolic: entry i is an ite over the receiver's entries
+        want.append(_select(vals, iv[i]))
+    rcell = nc.m.cell('ret', 0)
+    for g, res in (nodeh.decode_cases(nc, out.mem, rcell) if rcell is not None else []):
+        if res is None:
+            obls.append(('a result is returned', z3.And(g, z3.Not(out.raised))))
+        else:
+            obls += [(nm, z3.And(g, z3.Not(out.raised), c)) for nm, c in compare(value(res), want)]
+
+    def replay(model, ent):
+        cv = [model.eval(v, model_completion=True).as_signed_long() for v in iv]
+        lc = model.eval(nc.lencontent, model_completion=True).as_signed_long()
+        if lc > 200:
+            return False, 'content too long to replay', {}
+        head, inp = rp(model, lc)
+        return akrun_check(head + 'carry %s' % fullnative.ints(cv), [inp[v] for v in cv], '%s %s carried by %s' % (cls, inp, cv))
+    return mdischarge(nc.m, '%s::carry shape=%s variant=%s n=%d' % (cls, ','.join(map(str, dims)), variant, n), obls, [], replay=replay, prefer=[nc.lencontent <= 24],
+                      extra=dict(bounds='shape / pattern %s and %d carry entries concrete (case split); carry values, origins, index values symbolic' % (dims, n)))
+
+
+def _select(vals, k):
+    """entry k (symbolic, in range) of a list of nested values with concrete shapes: element-wise ite"""
+    def pick(items):
+        first = items[0]
+        if isinstance(first, list):
+            n = len(first)
+            if any(len(x) != n for x in items):
+                raise Unsupported('carry over lists of different lengths needs a concrete index')
+            return [pick([x[j] for x in items]) for j in range(n)]
+        val, none = first.val, first.none
+        for j in range(1, len(items)):
+            val = z3.If(k == j, items[j].val, val)
+            none = z3.If(k == j, items[j].none, none)
+        return Elem(val, none)
+    return pick(vals)
+
+
+def jobs_carry(tier):
+    js = []
+    cases = [('ListOffsetArray64', (2, 2, 2), None), ('ListArray64', (1, 1), None), ('RegularArray', (2, 3), None), ('UnmaskedArray', (3,), None),
+             ('IndexedOptionArray64', (0, 1, 0), None), ('IndexedArray64', (0, 0, 0), None), ('ByteMaskedArray', (0, 1, 0), True), ('ByteMaskedArray', (1, 0), False)]
+    for cls, dims, variant in cases:
+        for n in ((0, 2) if tier == 'quick' else (0, 1, 2, 3)):
+            js.append((h_carry, (cls, dims, variant, n), 600))
     return js
